@@ -77,6 +77,38 @@ func (s *vkMStub) count() int {
 	return s.calls
 }
 
+// ---- a handler that answers and still continues the chain (a legal use of
+// the handler contract): for names starting with "eager" it writes the
+// marker answer and calls Next, so on an inline UDP pass the reply is staged
+// AND the cache marks the query for handoff.
+
+type vkEager struct{}
+
+func (vkEager) Name() string { return "vkeager" }
+
+func (vkEager) ServeDNS(ctx context.Context, ch *middleware.Chain) {
+	r := ch.Request
+	eager := false
+	if r.Undecoded() {
+		n := r.WireName()
+		eager = len(n) > 6 && string(n[1:6]) == "eager"
+	} else if m := r.Msg(); m != nil && len(m.Question) == 1 {
+		eager = strings.HasPrefix(m.Question[0].Name, "eager")
+	}
+	if eager {
+		if req := r.Msg(); req != nil && len(req.Question) == 1 {
+			q := req.Question[0]
+			m := new(dns.Msg)
+			m.SetReply(req)
+			m.RecursionAvailable = true
+			m.Answer = []dns.RR{&dns.TXT{Hdr: dns.RR_Header{Name: q.Name, Rrtype: dns.TypeTXT, Class: q.Qclass, Ttl: 3600},
+				Txt: []string{vkMarker(q.Name, req.Id)}}}
+			_ = ch.Writer.WriteMsg(m)
+		}
+	}
+	ch.Next(ctx)
+}
+
 // ---- server world
 
 type vkSrvWorld struct {
@@ -96,7 +128,7 @@ func vkSrvConfig() *config.Config {
 func vkNewSrvWorld() *vkSrvWorld {
 	cfg := vkSrvConfig()
 	w := &vkSrvWorld{cache: cache.New(cfg), stub: &vkMStub{}}
-	hs := []middleware.Handler{edns.New(cfg), w.cache, w.stub}
+	hs := []middleware.Handler{edns.New(cfg), vkEager{}, w.cache, w.stub}
 	p := middleware.VerifNewPipeline(hs, middleware.RecursionWorkPolicy{})
 	w.cache.SetQueryer(middleware.NewPipelineQueryer(p))
 	w.srv = &Server{cfg: cfg, pipeline: p, inlineReady: true}
@@ -231,7 +263,7 @@ type vkFrame struct {
 	Expect string // answer | formerr | notimp | none | hangup
 }
 
-var vkFrameKinds = []string{"hit", "miss", "malf", "qr", "notify", "short", "big2048", "big2049", "big4200", "panic"}
+var vkFrameKinds = []string{"hit", "miss", "malf", "qr", "notify", "short", "big2048", "big2049", "big4200", "panic", "eager"}
 
 func vkQueryBytes(name string, id uint16, total int) []byte {
 	m := new(dns.Msg)
@@ -275,7 +307,7 @@ func vkMakeFrame(kind, tag string, pos int) vkFrame {
 	case "hit":
 		f.Name = fmt.Sprintf("hit.%s.c10.test.", tag)
 		f.Raw = vkQueryBytes(f.Name, id, 0)
-	case "miss":
+	case "miss", "eager":
 		f.Raw = vkQueryBytes(f.Name, id, 0)
 	case "panic":
 		// the handler answers and then panics: the engine drops the connection;
